@@ -20,6 +20,8 @@ pub struct RunResult {
     pub quiescent: bool,
     /// number of steps driven by the generated schedule
     pub scheduled_steps: usize,
+    /// an endpoint sent a message larger than everything the case ever wrote (side, length); the run was cut short there
+    pub oversize: Option<(usize, usize)>,
 }
 
 impl RunResult {
@@ -527,9 +529,16 @@ impl World {
             let a = en[vf_common::pick_index(*b, en.len())];
             self.apply(a);
             scheduled += 1;
+            if self.link.0.lock().unwrap().oversize.is_some() {
+                break;
+            }
         }
         let mut quiescent = false;
         while self.step < STEP_BOUND {
+            if self.link.0.lock().unwrap().oversize.is_some() {
+                quiescent = true; // cut short on purpose: the oracles report it
+                break;
+            }
             let en = self.enabled(true);
             if en.is_empty() {
                 quiescent = true;
@@ -537,6 +546,7 @@ impl World {
             }
             self.sweep(&en);
         }
+        let oversize = self.link.0.lock().unwrap().oversize;
         let mut task_exit = [None, None];
         let events = self.log.snapshot();
         for s in &events {
@@ -545,7 +555,7 @@ impl World {
             }
         }
         let tasks = self.exec.tasks.iter().map(|t| (t.name.clone(), t.kind, t.done, t.cancelled)).collect();
-        RunResult { events, tasks, task_exit, steps: self.step, quiescent, scheduled_steps: scheduled }
+        RunResult { events, tasks, task_exit, steps: self.step, quiescent, scheduled_steps: scheduled, oversize }
         // `self` (streams kept alive in cells, multiplexors) is dropped here, after the history was taken
     }
 
